@@ -380,6 +380,16 @@ func (fx *FnExec) execCallArgs(in ssa.Instruction, c *ssa.CallCommon, res ssa.Va
 	if fx.onCall != nil {
 		fx.onCall(fx, in.(ssa.CallInstruction), args, &result)
 	}
+	// an object invariant holds for ever for an object older than this activation (typeinv family:
+	// nobody stores to a footprint field of an existing object; code outside the package cannot
+	// name the unexported fields): it is restated for the parameters in the state after the call
+	if fx.inlDepth == 0 {
+		for _, p := range fx.Fn.Params {
+			if v, ok := fx.regs[p]; ok && v.S != "" && fx.typeInvOf(p.Type()) != nil {
+				fx.assumeTypeInv(p.Type(), v.S, fx.cur.heap)
+			}
+		}
+	}
 	setRes(result)
 }
 
@@ -420,7 +430,7 @@ func (fx *FnExec) callHavoc(in ssa.Instruction, c *ssa.CallCommon, args []Val, r
 					fx.adoptFresh("(i.pay " + r.S + ")")
 					if mt, isMap := pi.elem.Underlying().(*types.Map); isMap && fx.W.Contracts != nil {
 						for _, pe := range fx.W.Contracts.Lists["poolempty"] {
-							if pe == pi.global.Name() {
+							if pe == pi.name() {
 								// pool invariant (checked at every Put site under C01): the map is empty
 								dom, _, l := fx.mapHeaps(mt)
 								m := "(i.pay " + r.S + ")"
@@ -435,7 +445,7 @@ func (fx *FnExec) callHavoc(in ssa.Instruction, c *ssa.CallCommon, args []Val, r
 					fx.adoptFresh("(s.arr " + u + ")")
 				}
 				// declared pool invariant (checked at every Put site and for New under C01)
-				if pc := fx.W.Contracts.ByName["pool "+pi.global.Name()]; pc != nil {
+				if pc := fx.W.Contracts.ByName["pool "+pi.name()]; pc != nil {
 					xv := Val{T: pi.elem, S: fx.unbox(pi.elem, "(i.pay "+r.S+")")}
 					env := &evalEnv{fx: fx, heap: fx.cur.heap, oldHeap: fx.cur.heap, names: map[string]Val{"x": xv}, gh: fx.cur.gh, oldGh: fx.cur.gh, adopt: true}
 					for _, inv := range pc.Requires {
